@@ -665,18 +665,11 @@ class OPENQASMVisitor(Visitor):
 
         if qlist.data == 'idlist':
             # List of ids, e.g. q, r, but without indices
-            ids = []
-            tree_iter = qlist
-            while len(tree_iter.children) == 2:
-                ids.append(str(tree_iter.children[0]))
-                tree_iter = tree_iter.children[1]
-            ids.append(str(tree_iter.children[0]))
-
-            out_idxs = []
-            for qubit_id in ids:
-                out_idxs.extend(self.convert_qubit_id_to_indices(qubit_id))
-
-            return out_idxs
+            if len(qlist.children) == 2:
+                head = self.convert_qubit_ids_to_indices(qlist.children[0])
+                tail = self.convert_qubit_id_to_indices(str(qlist.children[1]))
+                return head + tail
+            return self.convert_qubit_id_to_indices(str(qlist.children[0]))
 
         if qlist.data == 'argument':
             # ID | ID "[" NNINTEGER "]"
